@@ -24,11 +24,15 @@ class Gen:
         self.anyvars = []
         self.nname = 0
         self.used_onmatch = False
+        self.no_headers = False
 
     # ---- helpers
     def fresh(self, prefix="v"):
         self.nname += 1
         return f"{prefix}{self.nname}"
+
+    def cols(self, kinds, strict=False):
+        return [] if self.no_headers else self.fs.cols(kinds, strict)
 
     def href(self, i):
         if self.fs.named and self.r.random() < 0.6:
@@ -42,7 +46,7 @@ class Gen:
     # ---- numeric expressions (never None, never non-numeric)
     def num(self, d=0):
         r = self.r
-        strict = self.fs.cols({"num"}, strict=True)
+        strict = self.cols({"num"}, strict=True)
         opts = ["term", "term", "lines"]
         if strict:
             opts += ["hdr", "hdr", "hdr"]
@@ -82,7 +86,7 @@ class Gen:
 
     def num_or_none(self, d):
         """add() admits None and "" (read as 0): numE columns and absent headers are allowed."""
-        cols = self.fs.cols({"num", "numE"})
+        cols = self.cols({"num", "numE"})
         if cols and self.r.random() < 0.35:
             return self.href(self.r.choice(cols))
         return self.num(d)
@@ -91,7 +95,7 @@ class Gen:
     def text(self, d=0, allow_empty=False):
         r = self.r
         kinds = {"txt", "txtE"} if allow_empty else {"txt"}
-        strict = self.fs.cols(kinds, strict=True)
+        strict = self.cols(kinds, strict=True)
         opts = ["term", "term"]
         if strict:
             opts += ["hdr", "hdr", "hdr"]
@@ -133,6 +137,8 @@ class Gen:
         return self.href_any()
 
     def href_any(self):
+        if self.no_headers:
+            return L.fn("exists", L.fn(self.r.choice(["count_lines", "line_number", "total_lines"])))
         i = self.any_col()
         if i < self.fs.ncols:
             return self.href(i)
@@ -181,7 +187,7 @@ class Gen:
 
     def cmp_num(self, d):
         """operands of ordinal comparisons: numbers, numeric cells (possibly absent => None)"""
-        cols = self.fs.cols({"num"})
+        cols = self.cols({"num"})
         if cols and self.r.random() < 0.5:
             return self.href(self.r.choice(cols))
         return self.num(d)
@@ -288,8 +294,8 @@ class Gen:
     # ---- stateful bookkeeping functions (match position, top level)
     def stateful(self):
         r = self.r
-        strict_any = self.fs.cols({"num", "txt"}, strict=True)
-        strict_num = self.fs.cols({"num"}, strict=True)
+        strict_any = self.cols({"num", "txt"}, strict=True)
+        strict_num = self.cols({"num"}, strict=True)
         opts = ["counter", "push", "sum_any"]
         if strict_any:
             opts += ["tally", "first", "countx"]
@@ -331,7 +337,32 @@ class Gen:
     def component(self):
         r = self.r
         opts = ["bool", "bool", "bool", "when", "assign", "assign", "stateful", "stateful"]
+        if "control" in self.groups:
+            opts += ["control", "control", "control", "last"]
+        if "validity" in self.groups:
+            opts += ["when", "validity"]
         c = r.choice(opts)
+        if c == "control":
+            k = r.choice(["stop", "skip", "advance", "stop0", "skip0"])
+            cond = self.boolean(1)
+            if cond["k"] in ("hdr", "var", "term"):
+                cond = L.fn("exists", self.nonterm(cond))
+            if k == "stop":
+                return L.fn(r.choice(["stop", "stop", "fail_and_stop"]), cond)
+            if k == "skip":
+                return L.fn("skip", cond)
+            if k == "advance":
+                return L.when(cond, L.fn("advance", L.term(r.choice([1, 2, 3]))))
+            if k == "stop0":
+                return L.when(cond, L.fn("stop"))
+            return L.when(cond, L.fn("skip"))
+        if c == "last":
+            return L.fn("last")
+        if c == "validity":
+            cond = self.boolean(1)
+            if cond["k"] == "term":
+                cond = self.href_any()
+            return L.when(cond, L.fn(r.choice(["fail", "fail", "fail_and_stop"])))
         if c == "bool":
             b = self.boolean(0)
             if b["k"] == "term":
@@ -356,6 +387,18 @@ class Gen:
         r = self.r
         n = ncomps or r.choice([1, 1, 2, 2, 3, 3, 4, 5, 6])
         comps = [self.component() for _ in range(n)]
+        if "control" in self.groups and r.random() < 0.35 and not self.used_onmatch:
+            # a 'last() ->' component comes last (C01's quantifier): the implementation freezes the
+            # path again after its action, which disables every later component of that line.
+            # Its action must not read headers: on a blank final record there are none.
+            self.no_headers = True
+            um = self.used_onmatch
+            self.used_onmatch = True  # no look-ahead from inside a last() action (it would run on a blank final record too)
+            act = self.action()
+            self.used_onmatch = um
+            self.no_headers = False
+            act.pop("_defines", None)
+            comps.append(L.when(L.fn("last"), act))
         first = self.fs.first_data_line()
         sc = self.scan(first)
         prog = {"scan": sc, "comps": comps}
@@ -395,11 +438,15 @@ class Gen:
         return L.scan("plus", items=items)
 
 
-def make_case(rng, tid, *, groups=("core",), AND=None, max_rows=8):
+def make_case(rng, tid, *, groups=("core",), AND=None, max_rows=8, modes=False):
     fs = L.FileSpec(rng, max_rows=max_rows)
     if AND is None:
         AND = rng.random() < 0.7
     g = Gen(rng, fs, AND=AND, groups=groups)
     prog = g.program()
     cfg = {"AND": AND, "noMatches": False, "keepUnmatched": False, "collecting": True, "noRun": False, "nexts": 0}
+    if modes:
+        cfg["noMatches"] = rng.random() < 0.5
+        cfg["keepUnmatched"] = rng.random() < 0.6
+        cfg["noRun"] = rng.random() < 0.1
     return {"tid": tid, "prog": prog, "records": fs.records, "cfg": cfg}
